@@ -253,6 +253,20 @@ def ob_two_criteria(ci, cj, n, k0: int = 2, k1: int = 2, k2: int = 2, v0: int = 
     return same(g12, exp)
 
 
+def ob_same_pair_twice(ci, k0: int = 2, k1: int = 2, v0: int = 0, v1: int = 0) -> Optional[bool]:
+    """a criteria pair given twice (same range, same criterion; or an equal copy of the range) changes nothing:
+    COUNTIFS(r,c,r,c) = COUNTIFS(r,c,r',c) = COUNTIF(r,c), SUMIFS likewise"""
+    cells = _build(2, (k0, k1), (v0, v1))
+    if cells is None:
+        return None
+    rect, copy = (cells,), (tuple(x for x in cells),)
+    crit = CRITERIA[ci][0]
+    one = countif(rect, crit)
+    ones = ((1, 1),)
+    return same(countifs(rect, crit, rect, crit), one) and same(countifs(rect, crit, copy, crit), one) and \
+        same(sumifs(ones, rect, crit, copy, crit), one)
+
+
 def ob_partition(x, n, region, k0: int = 2, k1: int = 2, k2: int = 2, k3: int = 2,
                  v0: int = 0, v1: int = 0, v2: int = 0, v3: int = 0) -> Optional[bool]:
     """COUNTIF(r, "=x") + COUNTIF(r, "<>x") = number of cells.  region=False: no cell holds the text rendering
@@ -340,6 +354,8 @@ def obligations(tier):
         s = ", ".join([f"k{i}: int" for i in range(n)] + [f"v{i}: int" for i in range(n)] +
                       [f"l{i}: int" for i in range(n)] + [f"w{i}: int" for i in range(n)])
         add(f"two_criteria[{CRITERIA[ci][0]!r},{CRITERIA[cj][0]!r}]", "ob_two_criteria", (ci, cj, n), s, 200 if n == 1 else 1500, "ifs")
+    for ci in ((3, 8, 12, 16) if tier == "quick" else range(len(CRITERIA))):
+        add(f"same_pair_twice[{CRITERIA[ci][0]!r}]", "ob_same_pair_twice", (ci,), sig(2), 120, "ifs")
     for x in ("5", "ab", "", "a*"):
         add(f"partition[{x!r}]", "ob_partition", (x, 3, False), sig(3), 120, "partition")
     obs.append(Obligation(PROP, "partition_known['5']", __name__, "ob_partition", ("5", 2, True), timeout=60,
